@@ -319,7 +319,7 @@ class PipeCase:
         return cmd
 
     def run_cli(self, model: dict, dest: str = None, timeout=30, hashseed=None, absolute=False, cwd=None,
-                reverse_includes=False) -> Outcome:
+                reverse_includes=False, verbose=0) -> Outcome:
         """the real command line in a fresh interpreter.  hashseed / absolute paths + other working directory /
         include directories in reverse order: the run-to-run variations of C15"""
         own = dest is None
@@ -338,6 +338,8 @@ class PipeCase:
                     if c in ('-c', '-o', '-I'):
                         cmd[i + 1] = ab(cmd[i + 1])
                 cmd[3] = ab(cmd[3])
+            if verbose:
+                cmd = cmd[:4] + ['-v'] * verbose + cmd[4:]
             env = dict(os.environ)
             env['PYTHONPATH'] = REPO_SRC
             env['PYTHONDONTWRITEBYTECODE'] = '1'
